@@ -195,6 +195,17 @@ def deref_expr(prog, fn, expr):
                 node.value = self.visit(node.value)
             return node
 
+        def visit_Call(self, node):
+            # a one-line package helper ``def h(self): return <expr over self.*>`` called without arguments
+            self.generic_visit(node)
+            if not node.args and not node.keywords and self.depth < 4:
+                ts = [t for t in prog.resolve_call(fn, node) if isinstance(t, FunctionInfo)]
+                if len(ts) == 1 and [p for p in ts[0].params if p != "self"] == []:
+                    body = [b for b in ts[0].node.body if not (isinstance(b, ast.Expr) and isinstance(b.value, ast.Constant))]
+                    if len(body) == 1 and isinstance(body[0], ast.Return) and body[0].value is not None:
+                        return copy.deepcopy(body[0].value)
+            return node
+
         def visit_Name(self, node):
             if isinstance(node.ctx, ast.Load) and self.depth < 4:
                 defs = reaching_assignments(prog, fn, node.id, expr)
